@@ -269,22 +269,22 @@ def evaluate(case, ctx):
                 ma = models(fa["transcript_models.gtf"], fa["transcript_model_counts.tsv"], True)
                 mb = models(fb["transcript_models.gtf"], fb["transcript_model_counts.tsv"], False)
                 if ma != mb:
-                    # root-cause class: do all differing models carry an intron chain annotated for >= 2 isoforms?
-                    chains = Counter()
+                    # root-cause class: same set of model structures in both orientations, only the read support
+                    # (counts) of *reference* transcripts differs: full-length paths are matched to known isoforms
+                    # in coordinate order and only the first path that matches an isoform brings its reads along
+                    # (known finding); anything else (a model present in one orientation only, a novel model with
+                    # different support) keeps the plain signature
+                    ref_structs = set()
                     for g_ in sc["genes"]:
                         for t_ in g_["transcripts"]:
-                            e_ = t_["exons"]
-                            chains[(g_["chr"], tuple((e_[i][1] + 1, e_[i + 1][0] - 1) for i in range(len(e_) - 1)))] += 1
-                    shared = True
-                    for key_ in list((ma - mb).keys()) + list((mb - ma).keys()):
-                        ex_ = key_[2]
-                        ch_ = tuple((ex_[i][1] + 1, ex_[i + 1][0] - 1) for i in range(len(ex_) - 1))
-                        # compare in the reflected coordinate system: mirror annotated chains
-                        n_ = L[key_[0]]
-                        mch = tuple(sorted((n_ + 1 - b_, n_ + 1 - a_) for a_, b_ in ch_))
-                        if chains.get((key_[0], mch), 0) < 2:
-                            shared = False
-                    suffix = ":isoforms-sharing-an-intron-chain" if shared else ""
+                            n_ = L[g_["chr"]]
+                            ref_structs.add((g_["chr"], tuple(sorted((n_ + 1 - b_, n_ + 1 - a_)
+                                                                     for a_, b_ in t_["exons"]))))
+                    sa = set(k_[:3] for k_ in ma)
+                    sb = set(k_[:3] for k_ in mb)
+                    diff_keys = list((ma - mb).keys()) + list((mb - ma).keys())
+                    only_counts = sa == sb and all((k_[0], tuple(k_[2])) in ref_structs for k_ in diff_keys)
+                    suffix = ":known-isoform-read-support-depends-on-path-order" if only_counts else ""
                     ctx.violation("C11:reflect:transcript-models-not-mirrored" + suffix,
                                   {"only_original(mirrored)": [list(x) for x in (ma - mb).keys()][:2],
                                    "only_reflected": [list(x) for x in (mb - ma).keys()][:2]}, case)
